@@ -29,7 +29,7 @@ Proof.
   destruct st as [m|].
   - unfold exec_step. destruct (exec_msg s m) as [s' rw|o] eqn:E; cbn [fst snd].
     2:{ exists pa. split; [exact Hg|]. left. split; reflexivity. }
-    destruct m as [who lpt start ed rules|who pid' d amt|who pid' d amt|who pid'|who pid' add rpb|who pid']; simpl in E.
+    destruct m as [who lpt start ed rules|who pid' d amt|who pid' d amt|who pid'|who pid' add rpb|who pid'|who cf tr]; simpl in E.
     + destruct (create_Done _ _ _ _ _ _ _ _ E) as (b1 & b2 & iv & _ & _ & _ & _ & _ & _ & _ & _ & ->).
       exists pa. split; [simpl; rewrite get_set_other by lia; exact Hg|]. left; split; reflexivity.
     + destruct (stake_Done _ _ _ _ _ _ _ E) as (p0 & b1 & p1 & b2 & rw0' & db & b3 & Hs). cbv zeta in Hs.
@@ -67,6 +67,8 @@ Proof.
         destruct (refund_cases _ _ _ _ _ Hr) as [(p1 & b1 & Hu & _)|(p1 & b1 & b' & Hu & -> & _)]; [congruence|].
         eexists. split; [simpl; rewrite get_set_same; reflexivity|]. apply (shp_upd _ _ _ _ _ _ _ _ PI Hu); [reflexivity|]. simpl. unfold rpsmap. rewrite map_map. reflexivity.
       * exists pa. split; [rewrite (refund_get_other _ _ _ _ _ _ Hne Hr); exact Hg|]. left; split; reflexivity.
+    + destruct (update_params_Done _ _ _ _ _ _ E) as (_ & _ & _ & _ & ->).
+      exists pa. split; [exact Hg|]. left; split; reflexivity.
   - (* next block *)
     unfold exec_step. cbn [fst snd]. unfold end_block.
     destruct (in_dec Z.eq_dec pid (due s)) as [Hin|Hni].
